@@ -34,3 +34,6 @@ foo
 ")) = [BMacro (runes "Sm") [[IText (runes "a")]] 1; BText [IText (runes "
 foo")] 2].
 Proof. vm_compute. reflexivity. Qed.
+
+Print Assumptions C07_examples.
+Print Assumptions C07_text_block_line.
